@@ -21,6 +21,21 @@ CLAIMED = {
    "deterministic simulation: seeded chunking/Pending/close fault plans on a simulated byte pipe + scheduler, reference-list oracle, delta-debugged replay", "4 (C17)"),
 }
 
+CLAIMED.update({
+ "C16": ("exploration",
+   "Seeded deterministic simulation of the real UdpClientStream (retry, per-transmission sockets, 3-datagram cap, 0x20) against an omniscient forger producing near-miss datagrams, and of the real TcpClientStream+DnsMultiplexer+DnsExchange with k concurrent requests against a scripted peer that reorders, duplicates, invents ids, stays silent and closes/resets; oracle: provenance markers per datagram/response, wire-id bookkeeping over the recorded history, deadlines in simulated time.",
+   "Forger gets exactly one attribute wrong per datagram; id collisions between in-flight stream requests are reached only by chance; await-point scheduling granularity.",
+   "deterministic simulation: simulated UDP/TCP behind RuntimeProvider, seeded forged-datagram / reorder / duplicate / close fault plans, history oracle with provenance markers", "4 (C16)"),
+ "C12": ("exploration",
+   "Seeded histories of TSIG-signed UPDATE messages pushed through the real Request parser -> Catalog -> SqliteZoneHandler -> InMemoryZoneHandler (+ journal) inside the simulator, compared message by message with a literal RFC 2136 reference model (accept/reject, rcode when unambiguous, full zone contents, RFC 1982 serial rule, SOA/NS/CNAME well-formedness). Fault-free half of the C14 simulation.",
+   "TTLs excluded from content comparison; one request at a time (no racing UPDATEs on a multi-thread runtime); reference model shares hickory's Name/RData data types (not its update logic).",
+   "deterministic simulation (fault-free configuration of the update rig): seeded UPDATE histories against an executable RFC 2136 reference model, refinement check after every message", "4 (C12)"),
+ "C14": ("fault_enumeration",
+   "For seeded UPDATE histories on a journal-backed zone, EVERY SQLite commit boundary of the journal (observed through commit/update/rollback hooks, initial dump included) is taken as a crash point: a journal holding exactly the committed prefix is recovered with the real recover_with_journal and must equal the server's own state after a whole number of messages (acked <= j <= started), serial included; one boundary per run continues with a post-recovery history compared with a never-crashed twin; a disk-full fault (max_page_count) is armed in 1 run of 5.",
+   "SQLite commits are atomic and durable; start-up decision 'journal exists => recover' is emulated for non-empty journals (empty-journal start-up is exercised separately when built); crash points are enumerated exhaustively per history, histories are sampled.",
+   "deterministic simulation with exhaustive crash-point enumeration per history: storage seam = SQLite commit boundary, recovery compared with recorded pre-crash states, disk-full injection", "4 (C14)"),
+})
+
 NOT_BUILT = {}
 
 def main():
